@@ -237,7 +237,13 @@ Definition tr_bonds (g g' : mol) : bool :=
 Definition tr_doubles (g g' : mol) : bool :=
   forallb2 (fun x y => old_doubles (snd x) (snd y) <=? 1) (m_adj g) (m_adj g').
 
-Definition thiele_rel_noh (g g' : mol) : bool := tr_atoms g g' && tr_bonds g g' && tr_doubles g g'.
+(* quinone exclusion: an atom that gains aromatic bonds keeps no double bond (its double bond, if any, went into the ring) *)
+Definition gained_arom (l l' : nbl) : Z := moved 1 4 l l' + moved 2 4 l l'.
+Definition tr_quinone (g g' : mol) : bool :=
+  forallb2 (fun x y => (gained_arom (snd x) (snd y) =? 0) || negb (has_ord 2 (snd y))) (m_adj g) (m_adj g').
+
+Definition thiele_rel_core (g g' : mol) : bool := tr_atoms g g' && tr_bonds g g' && tr_doubles g g'.
+Definition thiele_rel_noh (g g' : mol) : bool := thiele_rel_core g g' && tr_quinone g g'.
 Definition thiele_rel (g g' : mol) : bool := thiele_rel_noh g g' && tr_h g g'.
 
 (* the two aromatic forms have the aromatic bonds in the same places *)
